@@ -587,3 +587,153 @@ func c16anyUsed(used map[string]bool, p string) bool {
 	}
 	return false
 }
+
+// ---- c16.update: `hz update` — the IDL gained routes and the router package already exists on disk.
+// api.go is regenerated, middleware.go and the handler files are updated in place; the package must
+// still be exactly what a fresh generation of the whole IDL gives: it type-checks, every middleware the
+// router calls is declared once, every declared handler exists once, and the router equals the fresh one.
+func c16generateIn(dir string, opt int, decls []c16decl) (files map[string]string, err error) {
+	util.ResetUniqueNamesForVerif()
+	generator.ResetForVerif()
+	g := &generator.HttpPackageGenerator{ProjPackage: "example.com/p", HandlerDir: "biz/handler", RouterDir: "biz/router", ModelDir: "biz/model",
+		SortRouter: opt&1 != 0, SnakeStyleMiddleware: opt&2 != 0, HandlerByMethod: opt&4 != 0}
+	g.OutputDir = "."
+	var ms []*generator.HttpMethod
+	for _, d := range decls {
+		ms = append(ms, &generator.HttpMethod{Name: d.name, HTTPMethod: d.verb, Path: d.path, OutputDir: d.dir, ReturnTypeName: "api.Resp", Serializer: "JSON", GenHandler: true})
+	}
+	pkg := &generator.HttpPackage{IdlName: "api.thrift", Package: "api", Services: []*generator.Service{{Name: "Svc", Methods: ms}}}
+	if err = g.Generate(pkg); err != nil {
+		return
+	}
+	fl, err := g.GetFormatAndExcludedFiles()
+	if err != nil {
+		return
+	}
+	files = map[string]string{}
+	for _, f := range fl {
+		files[f.Path] = f.Content
+		p := dir + "/" + f.Path
+		if err = os.MkdirAll(p[:strings.LastIndex(p, "/")], 0o755); err != nil {
+			return
+		}
+		if err = os.WriteFile(p, []byte(f.Content), 0o644); err != nil {
+			return
+		}
+	}
+	return
+}
+
+func init() {
+	register(&Unit{Name: "c16.update", Props: []string{"C16"},
+		// in: option bits, number of declarations of the first run, decl...
+		Check: func(t *T, in In) []Finding {
+			opt, k := in.N(0), in.N(1)
+			decls := c16parseDecls(in, 2)
+			if k < 1 || k >= len(decls) || !c16valid(decls) {
+				return nil
+			}
+			c16mu.Lock()
+			defer c16mu.Unlock()
+			wd, _ := os.Getwd()
+			dir, err := os.MkdirTemp("", "verif-c16-")
+			if err != nil {
+				panic(err)
+			}
+			defer os.RemoveAll(dir)
+			defer os.Chdir(wd)
+			var fs []Finding
+			bad := func(class, impl, expect string) {
+				fs = append(fs, Finding{Kind: "oracle", Unit: "c16.update", Class: class, Impl: impl, Expect: expect})
+			}
+			// the reference: everything generated at once into an empty project
+			ref, _ := os.MkdirTemp("", "verif-c16-ref-")
+			defer os.RemoveAll(ref)
+			os.Chdir(ref)
+			fresh, err := c16generateIn(ref, opt, decls)
+			if err != nil {
+				return nil // not generable at all: c16.router's subject
+			}
+			os.Chdir(dir)
+			if _, err := c16generateIn(dir, opt, decls[:k]); err != nil {
+				return nil
+			}
+			upd, err := c16generateIn(dir, opt, decls)
+			if err != nil {
+				bad("update-failed", err.Error(), "")
+				return fs
+			}
+			router, mw := upd["biz/router/api/api.go"], upd["biz/router/api/middleware.go"]
+			if mw == "" { // not touched by this run: the file on disk stands
+				b, _ := os.ReadFile(dir + "/biz/router/api/middleware.go")
+				mw = string(b)
+			}
+			if router != fresh["biz/router/api/api.go"] {
+				bad("updated-router-differs-from-a-fresh-generation", router, fresh["biz/router/api/api.go"])
+			}
+			if err := c16typecheck(router, mw, decls, opt&4 != 0); err != nil {
+				bad("updated-router-package-does-not-type-check", err.Error(), "")
+			}
+			// every declared handler is defined exactly once in its package
+			defs := map[string]int{}
+			for path := range fresh {
+				if !strings.HasPrefix(path, "biz/handler/") || !strings.HasSuffix(path, ".go") {
+					continue
+				}
+				src, ok := upd[path]
+				if !ok {
+					b, _ := os.ReadFile(dir + "/" + path)
+					src = string(b)
+				}
+				f, err := parser.ParseFile(token.NewFileSet(), path, src, 0)
+				if err != nil {
+					bad("updated-handler-file-is-not-go", path+": "+err.Error(), "")
+					continue
+				}
+				for _, d := range f.Decls {
+					if fd, ok := d.(*ast.FuncDecl); ok && fd.Recv == nil {
+						defs[path[:strings.LastIndex(path, "/")]+"."+fd.Name.Name]++
+					}
+				}
+			}
+			for _, d := range decls {
+				pk := strings.TrimPrefix(c16handlerPkg(d, opt&4 != 0), "example.com/p/")
+				if n := defs[pk+"."+d.name]; n != 1 {
+					bad("handler-not-defined-exactly-once-after-update", fmt.Sprintf("%s.%s defined %d times", pk, d.name, n), "")
+				}
+			}
+			t.Count(fmt.Sprintf("options/%d", opt))
+			return fs
+		},
+		Gen: func(t *T) {
+			segs := []string{"a", "b", "a-b", "a_b", "a.b", "b_a", "ab", ":id", "v1", "user", "users", "x_user"}
+			verbs := []string{"GET", "POST", "PUT", "DELETE", "Any"}
+			for i := 0; i < t.Scale(150, 4000); i++ {
+				in := In{Nn([]int{0, 0, 1, 2, 3, 4}[t.R.Intn(6)]), Nn(0)}
+				used := map[string]bool{}
+				for k, n := 0, 2+t.R.Intn(7); k < n; k++ {
+					var sb strings.Builder
+					for d, depth := 0, 1+t.R.Intn(3); d < depth; d++ {
+						sb.WriteString("/" + segs[t.R.Intn(len(segs))])
+					}
+					p := sb.String()
+					v := verbs[t.R.Intn(len(verbs))]
+					key := strings.ToUpper(v) + " " + p
+					if used[key] || used["ANY "+p] || (strings.EqualFold(v, "any") && c16anyUsed(used, p)) {
+						continue
+					}
+					used[key] = true
+					dir := ""
+					if in.N(0)&4 != 0 {
+						dir = []string{"", "user", "a/user", "b/order"}[t.R.Intn(4)]
+					}
+					in = append(in, S(strings.TrimSpace(fmt.Sprintf("%s %s M%d %s", v, p, k, dir))))
+				}
+				if len(in) < 4 {
+					continue
+				}
+				in[1] = Nn(1 + t.R.Intn(len(in)-3))
+				t.Do(in, true)
+			}
+		}})
+}
